@@ -31,12 +31,12 @@ type c04Fault struct {
 }
 
 type c04Case struct {
-	Tree     *h.Tree   `json:"tree"`
-	Many     int       `json:"many"` // extra flat files (large fan-out)
-	Dst      *h.Tree   `json:"dst"`
-	Capacity int       `json:"capacity"`
-	Notify   bool      `json:"notify"`
-	Stride   int       `json:"stride"`         // enumerate every Stride-th position (1 = all)
+	Tree     *h.Tree `json:"tree"`
+	Many     int     `json:"many"` // extra flat files (large fan-out)
+	Dst      *h.Tree `json:"dst"`
+	Capacity int     `json:"capacity"`
+	Notify   bool    `json:"notify"`
+	Stride   int     `json:"stride"` // enumerate every Stride-th position (1 = all)
 	// DstSynced: the prior destination is the result of an earlier complete transfer
 	// of this source (all entries, the many files included) plus the drawn edits
 	DstSynced bool `json:"dst_synced,omitempty"`
@@ -46,7 +46,7 @@ type c04Case struct {
 	// link): the receiver's queues fill from the destination side instead
 	SlowSendUS int `json:"slow_send_us,omitempty"`
 	srcDir     string
-	Only     *c04Fault `json:"only,omitempty"` // replay a single fault
+	Only       *c04Fault `json:"only,omitempty"` // replay a single fault
 }
 
 var c04TreeCfg = h.TreeCfg{
